@@ -1,0 +1,209 @@
+//go:build verif
+// +build verif
+
+package nutsdb
+
+import (
+	"bytes"
+	"fmt"
+)
+
+// Accessors for the verification harness (build tag "verif"); nothing here is
+// reachable from a normal build.
+
+// VerifEntryFields carries every stored field of a data entry.
+type VerifEntryFields struct {
+	Bucket, Key, Value []byte
+	Timestamp          uint64
+	TTL                uint32
+	Flag, Status, Ds   uint16
+	TxID               uint64
+}
+
+// VerifNewEntry builds an Entry with arbitrary field values.
+func VerifNewEntry(f VerifEntryFields) *Entry {
+	return &Entry{
+		Key:   f.Key,
+		Value: f.Value,
+		Meta: &MetaData{
+			keySize:    uint32(len(f.Key)),
+			valueSize:  uint32(len(f.Value)),
+			timestamp:  f.Timestamp,
+			Flag:       f.Flag,
+			TTL:        f.TTL,
+			bucket:     f.Bucket,
+			bucketSize: uint32(len(f.Bucket)),
+			status:     f.Status,
+			ds:         f.Ds,
+			txID:       f.TxID,
+		},
+	}
+}
+
+// VerifFields returns every stored field of e.
+func (e *Entry) VerifFields() VerifEntryFields {
+	return VerifEntryFields{
+		Bucket: e.Meta.bucket, Key: e.Key, Value: e.Value,
+		Timestamp: e.Meta.timestamp, TTL: e.Meta.TTL,
+		Flag: e.Meta.Flag, Status: e.Meta.status, Ds: e.Meta.ds, TxID: e.Meta.txID,
+	}
+}
+
+// VerifSizes returns the three size fields of the header as stored.
+func (e *Entry) VerifSizes() (bucketSize, keySize, valueSize uint32) {
+	return e.Meta.bucketSize, e.Meta.keySize, e.Meta.valueSize
+}
+
+// VerifRootIdxFields carries every stored field of a sparse root-index record.
+type VerifRootIdxFields struct {
+	FID, RootOff uint64
+	Start, End   []byte
+}
+
+// VerifNewRootIdx builds a root-index record.
+func VerifNewRootIdx(f VerifRootIdxFields) *BPTreeRootIdx {
+	return &BPTreeRootIdx{fID: f.FID, rootOff: f.RootOff, start: f.Start, end: f.End,
+		startSize: uint32(len(f.Start)), endSize: uint32(len(f.End))}
+}
+
+// VerifFields returns every stored field of bri.
+func (bri *BPTreeRootIdx) VerifFields() VerifRootIdxFields {
+	return VerifRootIdxFields{FID: bri.fID, RootOff: bri.rootOff, Start: bri.start, End: bri.end}
+}
+
+// VerifNewBucketMeta builds a bucket meta record.
+func VerifNewBucketMeta(start, end []byte) *BucketMeta {
+	return &BucketMeta{start: start, end: end, startSize: uint32(len(start)), endSize: uint32(len(end))}
+}
+
+// VerifFields returns the stored fields of bm.
+func (bm *BucketMeta) VerifFields() (start, end []byte) { return bm.start, bm.end }
+
+// VerifRootIdxes lists the sealed-segment root-index records of a sparse database.
+func (db *DB) VerifRootIdxes() []VerifRootIdxFields {
+	var out []VerifRootIdxFields
+	for _, r := range db.BPTreeRootIdxes {
+		out = append(out, r.VerifFields())
+	}
+	return out
+}
+
+// VerifCheck walks the tree and reports the first structural inconsistency:
+// keys sorted inside nodes and along the leaf chain, separator keys bound
+// their subtrees, parents consistent, every leaf reachable from the root is
+// on the chain, KeysNum in range.
+func (t *BPTree) VerifCheck() error {
+	if t == nil || t.root == nil {
+		return nil
+	}
+	var leaves []*Node
+	var walk func(n *Node, lo, hi []byte, depth int) (int, error)
+	walk = func(n *Node, lo, hi []byte, depth int) (int, error) {
+		if n == nil {
+			return 0, fmt.Errorf("nil node at depth %d", depth)
+		}
+		if n.KeysNum < 1 || n.KeysNum > order-1 {
+			return 0, fmt.Errorf("KeysNum %d out of range at depth %d", n.KeysNum, depth)
+		}
+		for i := 0; i < n.KeysNum; i++ {
+			if i > 0 && bytes.Compare(n.Keys[i-1], n.Keys[i]) >= 0 {
+				return 0, fmt.Errorf("keys not strictly ascending in node: %q >= %q", n.Keys[i-1], n.Keys[i])
+			}
+			if lo != nil && bytes.Compare(n.Keys[i], lo) < 0 {
+				return 0, fmt.Errorf("key %q below separator %q", n.Keys[i], lo)
+			}
+			if hi != nil && bytes.Compare(n.Keys[i], hi) >= 0 {
+				return 0, fmt.Errorf("key %q not below separator %q", n.Keys[i], hi)
+			}
+		}
+		if n.isLeaf {
+			for i := 0; i < n.KeysNum; i++ {
+				r, ok := n.pointers[i].(*Record)
+				if !ok || r == nil || r.H == nil {
+					return 0, fmt.Errorf("leaf slot %d holds no record", i)
+				}
+			}
+			leaves = append(leaves, n)
+			return depth, nil
+		}
+		d := -1
+		for i := 0; i <= n.KeysNum; i++ {
+			c, ok := n.pointers[i].(*Node)
+			if !ok || c == nil {
+				return 0, fmt.Errorf("inner node child %d missing", i)
+			}
+			if c.parent != n {
+				return 0, fmt.Errorf("child %d has wrong parent", i)
+			}
+			clo, chi := lo, hi
+			if i > 0 {
+				clo = n.Keys[i-1]
+			}
+			if i < n.KeysNum {
+				chi = n.Keys[i]
+			}
+			cd, err := walk(c, clo, chi, depth+1)
+			if err != nil {
+				return 0, err
+			}
+			if d == -1 {
+				d = cd
+			} else if d != cd {
+				return 0, fmt.Errorf("leaves at different depths %d and %d", d, cd)
+			}
+		}
+		return d, nil
+	}
+	if _, err := walk(t.root, nil, nil, 0); err != nil {
+		return err
+	}
+	// leaf chain == in-order leaves
+	for i, l := range leaves {
+		var want *Node
+		if i+1 < len(leaves) {
+			want = leaves[i+1]
+		}
+		got, _ := l.pointers[order-1].(*Node)
+		if got != want {
+			return fmt.Errorf("leaf chain broken after leaf %d of %d", i, len(leaves))
+		}
+	}
+	return nil
+}
+
+// VerifKeys returns the keys on the leaf chain, in chain order.
+func (t *BPTree) VerifKeys() [][]byte {
+	if t == nil || t.root == nil {
+		return nil
+	}
+	n := t.root
+	for !n.isLeaf {
+		n = n.pointers[0].(*Node)
+	}
+	var out [][]byte
+	for n != nil {
+		for i := 0; i < n.KeysNum; i++ {
+			out = append(out, n.Keys[i])
+		}
+		n, _ = n.pointers[order-1].(*Node)
+	}
+	return out
+}
+
+// VerifCheckIndexes runs the structural walkers over every in-memory index.
+func (db *DB) VerifCheckIndexes() error {
+	for b, t := range db.BPTreeIdx {
+		if err := t.VerifCheck(); err != nil {
+			return fmt.Errorf("B+ tree of bucket %q: %v", b, err)
+		}
+	}
+	if err := db.ActiveBPTreeIdx.VerifCheck(); err != nil {
+		return fmt.Errorf("active sparse B+ tree: %v", err)
+	}
+	for b, z := range db.SortedSetIdx {
+		if err := z.VerifCheck(); err != nil {
+			return fmt.Errorf("sorted set %q: %v", b, err)
+		}
+	}
+	return nil
+}
